@@ -23,8 +23,17 @@ type Source struct {
 	// FailErr instead (bytes before FailAt are still delivered first).
 	FailAt  int
 	FailErr error
-	Calls   int
-	failed  bool
+	// FailWithData: the fault is reported by the same call that delivers the
+	// last bytes before FailAt (n > 0 together with the error), as io.Reader
+	// permits.  FailOnce: the fault is transient — it is reported exactly once,
+	// later calls deliver the rest of the data as if nothing had happened.
+	FailWithData bool
+	FailOnce     bool
+	Calls        int
+	// CallsAfterFault counts Read calls made after the fault was reported.
+	CallsAfterFault int
+	failed          bool
+	reported        bool
 }
 
 // NewSource returns a source that delivers everything the caller asks for.
@@ -33,7 +42,10 @@ func NewSource(data []byte) *Source {
 }
 
 func (s *Source) Read(p []byte) (int, error) {
-	if s.failed {
+	if s.reported {
+		s.CallsAfterFault++
+	}
+	if s.failed && !s.FailOnce {
 		return 0, s.FailErr
 	}
 	if len(p) == 0 {
@@ -42,13 +54,13 @@ func (s *Source) Read(p []byte) (int, error) {
 	call := s.Calls
 	s.Calls++
 	limit := len(s.Data)
-	if s.FailAt >= 0 && s.FailAt < limit {
+	if s.FailAt >= 0 && s.FailAt < limit && !s.reported {
 		limit = s.FailAt
 	}
 	remaining := limit - s.Pos
 	if remaining <= 0 {
-		if s.FailAt >= 0 {
-			s.failed = true
+		if s.FailAt >= 0 && !s.reported {
+			s.failed, s.reported = true, true
 			return 0, s.FailErr
 		}
 		return 0, io.EOF
@@ -70,7 +82,11 @@ func (s *Source) Read(p []byte) (int, error) {
 	}
 	copy(p, s.Data[s.Pos:s.Pos+n])
 	s.Pos += n
-	if eof && s.Pos == len(s.Data) && s.FailAt < 0 {
+	if s.FailWithData && s.FailAt >= 0 && !s.reported && s.Pos == limit && limit == s.FailAt {
+		s.failed, s.reported = true, true
+		return n, s.FailErr
+	}
+	if eof && s.Pos == len(s.Data) && (s.FailAt < 0 || s.reported) {
 		return n, io.EOF
 	}
 	return n, nil
